@@ -70,6 +70,14 @@ void* iglue_mem_object(void* inst) {
     return ((instInstance*)inst)->m0;
 #endif
 }
+/* the documented accessor '<module>_<export name>' of an exported memory (defined-memory variants export it as "memory") */
+void* iglue_export_memory(void* inst) {
+#if MEM_IMPORTED
+    (void)inst; return NULL;
+#else
+    return inst_memory((instInstance*)inst);
+#endif
+}
 void* iglue_tab_object(void* inst) {
 #if TAB_IMPORTED
     return ((instInstance*)inst)->TAB_FIELD;
